@@ -296,6 +296,30 @@ def run(tier: str) -> int:
                 ch.violation("impl-violates-spec", "template", {"source": src}, impl=out,
                              spec="componentTag_total: compiling a template raises TemplateSyntaxError or nothing")
                 break
+    # truncated / damaged templates whose tags hold quoted `%}` (the quote-aware template lexer at work)
+    if not stop and not [v for v in ch.violations if v["kind"] == "impl-violates-spec"]:
+        seeds_ = ['{% component "c" body="{% lorem 3 w %}" / %}', "{% component 'c' a='%}' b=\"x %} y\" %}z{% endcomponent %}",
+                  '<p>{% component "c" t="{{ v }} %}" %}{% fill "s" %}{{ a }}{% endfill %}{% endcomponent %}</p>',
+                  '{% x "a %} b" %}', "{%\"%}\"%}", '{% component "c" a="\\" %}" %}{% endcomponent %}',
+                  '{# c #}{% component "c" %}{% slot "s" d="%" %}{% endslot %}{% endcomponent %}%']
+        tr = []
+        for src in seeds_:
+            tr += [src[:k] for k in range(len(src) + 1)]
+            tr += [src[:k] + "%" for k in range(0, len(src), 3)]
+        n_m = int((600 if tier == "quick" else 20000) * ch.budget_scale)
+        for i in range(n_m):
+            r = core.rng(PROP, "trunc", i)
+            src = r.choice(seeds_)
+            a, b = sorted((r.randrange(len(src) + 1), r.randrange(len(src) + 1)))
+            tr.append(src[:a] + r.choice(["", "%", '"', "'", "%}", "{%", " "]) + src[b:] if r.random() < 0.5 else src[:a] + src[b:] + r.choice(["%", "", '"']))
+        for src in tr:
+            ch.count("template/truncated", 1, 1)
+            out = compile_outcome(src)
+            ch.errkind("truncated:" + out)
+            if out not in ("ok", "TemplateSyntaxError"):
+                ch.violation("impl-violates-spec", "template/truncated", {"source": src}, impl=out,
+                             spec="compiling any template source raises TemplateSyntaxError or nothing")
+                break
     # deterministic cost
     from django_components.util.tag_parser import parse_tag
 
